@@ -505,6 +505,48 @@ def no_synthesised_values(R, ctx):
     R.require(rid, "floor:cells", n >= 300, "", "%d cells" % n)
 
 
+def same_text(R, ctx):
+    """Tokens carry byte offsets into the text that was tokenised; the generator cuts them out of the file content it is given.
+    Both are the same string only if the parser hands full_moon its input as it is."""
+    rid = "C03.same-text"
+    lib = ctx.lib
+    R.rule(rid, "every call of a full_moon entry point that takes source text (`full_moon::parse*`, `Lexer::new`) outside "
+                "tests: the text argument is the enclosing function's own `&str` parameter, unchanged (reborrows and `let` aliases "
+                "allowed; a slice, a trimmed / stripped / replaced copy is not): token positions are byte offsets into the text "
+                "tokenised and the line-keeping generator reads them from the file content the worker holds, so a parser that skips or "
+                "rewrites a prefix shifts every token read")
+
+    def itself(fa, e, depth=0):
+        k = e.get("k")
+        if k in ("Borrow", "Deref", "Scope", "Use", "NeverToAny") and "e" in e and depth < 12:
+            return itself(fa, e["e"], depth + 1)
+        if k == "#param":
+            return True
+        if k == "Var" and depth < 12:
+            srcs = fa.env.get(e["var"], [])
+            return bool(srcs) and all(not pre and itself(fa, src, depth + 1) for src, pre in srcs)
+        return False
+    n = 0
+    for g in lib.fn_list:
+        if "::test" in g["path"] or not thir.body_of(g):
+            continue
+        fa = None
+        for c in thir.calls(g):
+            cal = callee_of(c) or ""
+            if not (cal.startswith("full_moon::parse") or cal.startswith("full_moon::tokenizer::lexer::Lexer::new")) or not c["args"]:
+                continue
+            a = c["args"][0]
+            if "str" not in lib.ty_str(a.get("t")):
+                continue
+            fa = fa or ctx.an.fa(g["path"])
+            n += 1
+            ok = itself(fa, a)
+            R.ob(rid, "%s|%s" % (g["path"].split("::")[-1], cal.split("::")[-1]), ok, ctx.where(g, c.get("ln")),
+                 "parses its own text parameter as given" if ok else
+                 "the text handed to %s is derived from the input (not the parameter itself): token offsets no longer index the file content" % cal)
+    R.require(rid, "floor:parse-sites", n >= 1, "", "%d full_moon text entry points called" % n)
+
+
 def run(R, ctx):
     R.explanation = (
         "Static capture/store/replay coverage: full_moon's token accessors (from crate metadata) vs. calls in the converter, "
@@ -523,3 +565,4 @@ def run(R, ctx):
     exact_separator(R, ctx)
     no_spurious_space(R, ctx)
     no_synthesised_values(R, ctx)
+    same_text(R, ctx)
